@@ -20,6 +20,9 @@ import (
 type c01Sep struct {
 	Words int `json:"w"`
 	Lines int `json:"l"`
+	// Chain: the block is preceded by one more unrelated word that is hyphenated over two consecutive line ends
+	// ("zqchaina-" / "zqchainb-" / "zqchainc": one word, three lines).
+	Chain bool `json:"chain,omitempty"`
 }
 
 type c01Copy struct {
@@ -89,7 +92,7 @@ func c01Gen(t *rapid.T) interface{} {
 		if i == 0 && lib.IntN(t, 0, 9, "longPrefix") == 0 {
 			w = lib.IntN(t, 41, 2000, "prefixWords")
 		}
-		c.Seps = append(c.Seps, c01Sep{Words: w, Lines: lib.IntN(t, 1, 5, "sepLines")})
+		c.Seps = append(c.Seps, c01Sep{Words: w, Lines: lib.IntN(t, 1, 5, "sepLines"), Chain: lib.IntN(t, 0, 5, "chain") == 0})
 	}
 	return c
 }
@@ -153,6 +156,11 @@ func c01Build(c *c01Case, cl *Classifier) (input []byte, planted []c01Planted, w
 		oovBase += s.Words
 		for k := 0; k < s.Words; k++ {
 			want = append(want, unknownIndex)
+		}
+		if s.Chain {
+			block = "zqchaina-\nzqchainb-\nzqchainc\n" + block
+			want = append(want, unknownIndex)
+			cls["hyphen-chain-in-context"] = true
 		}
 		if cp.InlineBefore {
 			block = strings.TrimSuffix(block, "\n") + " "
